@@ -245,6 +245,68 @@ def build(spec: NetSpec, names=None, order=None, override=None, netname="net", t
     return Built(net, spec, obj)
 
 
+def build_edited(spec: NetSpec, P: dict, mode: str = "links", engine=None) -> Built:
+    """Reaches the network described by `spec` from a NON-initial state: a different valid network on the same
+    nodes is built, every lookup is read, it is stepped, and then it is edited in place into the described
+    network without any read in between.  What is returned must behave exactly like a freshly built network.
+      mode "links":       first the final link objects sit on the WRONG edges (rotated), origins and destinations
+                          are the final objects; the edit re-adds every link on its own edge;
+      mode "replace":     first every edge carries a temporary link object with other parameters (origins and
+                          destinations final); the edit replaces each by the final link, so the temporary ones
+                          leave the network;
+      mode "attachments": first the links are final, but ramps at interior nodes are missing and the other
+                          origins/destinations are different objects of another kind; the edit attaches the final
+                          origins and destinations (no link is touched afterwards)."""
+    import numpy as _np
+
+    obj = make_elements(spec)
+    net = M.Network(name="net")
+    nodes = [obj[f"n{i}"] for i in range(spec.n)]
+    net.add_nodes(nodes)
+    m = len(spec.links)
+    rot = 1 if mode == "links" else 0
+    for i, l in enumerate(spec.links):
+        if mode == "replace":
+            tmp = M.Link((l.N % 3) + 1, l.lam + 1, l.L * 1.1, l.rho_max + 5.0, l.rho_crit + 1.0, l.v_free - 3.0, l.a + 0.05,
+                         turnrate=l.beta * 2.0, name=f"tmpL{i}")
+            net.add_link(nodes[l.u], tmp, nodes[l.v])
+        else:
+            net.add_link(nodes[l.u], obj[f"L{(i + rot) % m}"], nodes[l.v])
+    for o in spec.origins:
+        if mode in ("links", "replace"):
+            net.add_origin(obj[f"O{o.node}"], nodes[o.node])
+            continue
+        if spec.in_links(o.node):
+            continue  # a ramp at an interior node is attached only later
+        if o.kind in NONRAMP_KINDS:
+            tmp = M.MainstreamOrigin(name=f"tmpO{o.node}") if o.kind == "ideal" else M.Origin(name=f"tmpO{o.node}")
+        else:
+            tmp = M.MeteredOnRamp(1234.0, "in" if o.kind != "ramp_in" else "out", name=f"tmpO{o.node}")
+        net.add_origin(tmp, nodes[o.node])
+    for d in spec.dests:
+        if mode in ("links", "replace"):
+            net.add_destination(obj[f"D{d.node}"], nodes[d.node])
+        else:
+            tmp = M.CongestedDestination(name=f"tmpD{d.node}") if d.kind == "free" else M.Destination(name=f"tmpD{d.node}")
+            net.add_destination(tmp, nodes[d.node])
+    touch_lookups(net)
+    if engine is None:
+        from sym_metanet.engines.numpy import Engine as _NE
+
+        engine = _NE(_np.float64(27.5))
+    net.step(engine=engine, **P)
+    # ---- edits ----
+    if mode in ("links", "replace"):
+        for i, l in enumerate(spec.links):
+            net.add_link(nodes[l.u], obj[f"L{i}"], nodes[l.v])
+    else:
+        for o in spec.origins:
+            net.add_origin(obj[f"O{o.node}"], nodes[o.node])
+        for d in spec.dests:
+            net.add_destination(obj[f"D{d.node}"], nodes[d.node])
+    return Built(net, spec, obj)
+
+
 # ---------------------------------------------------------------------------------------
 # independent validity predicate on specs (the nine documented conditions; objects are
 # distinct by construction so condition 1 cannot fail)
